@@ -177,6 +177,7 @@ void on_conn(int which, struct evconnlistener *lev, evutil_socket_t fd, struct s
     int k = w.s->below(14);
     if (k == 1) { TR("    in-cb close fd %d", (int)fd); close(fd); w.acc[ai].hclosed = true; }
     else if (k >= 2) { w.incb_actions++; act(k >= 12 ? (li ^ 1) : li, k, true); }
+    if (k >= 1 && w.s->below(4) == 3) { int k2 = 2 + (int)w.s->below(10); w.incb_actions++; act(li, k2, true); }   // a second action in the same callback (e.g. disable, then free)
     l.cb_depth--;
   }
 }
